@@ -502,7 +502,12 @@ impl QueryEngine {
         Ok(optimizer.optimize(analyzed, &state, |_, _| {})?)
     }
 
-    /// Recursively extract time bounds from a logical plan
+    /// Recursively extract time bounds from a logical plan.
+    ///
+    /// Every filter of the plan is looked at, whatever nodes sit above it (DISTINCT,
+    /// window functions, sub-query aliases, unions, ...): a node kind that is not
+    /// descended into would hide its filters, and the statement would silently fall back
+    /// to the default window.
     fn extract_time_bounds(
         plan: &LogicalPlan,
         min_time: &mut Option<i64>,
@@ -511,7 +516,6 @@ impl QueryEngine {
         match plan {
             LogicalPlan::Filter(filter) => {
                 Self::extract_time_from_expr(&filter.predicate, false, min_time, max_time);
-                Self::extract_time_bounds(&filter.input, min_time, max_time);
             }
             LogicalPlan::TableScan(scan) => {
                 // The optimizer pushes filters into the scan
@@ -519,19 +523,10 @@ impl QueryEngine {
                     Self::extract_time_from_expr(filter, false, min_time, max_time);
                 }
             }
-            LogicalPlan::Projection(proj) => {
-                Self::extract_time_bounds(&proj.input, min_time, max_time);
-            }
-            LogicalPlan::Sort(sort) => {
-                Self::extract_time_bounds(&sort.input, min_time, max_time);
-            }
-            LogicalPlan::Limit(limit) => {
-                Self::extract_time_bounds(&limit.input, min_time, max_time);
-            }
-            LogicalPlan::Aggregate(agg) => {
-                Self::extract_time_bounds(&agg.input, min_time, max_time);
-            }
             _ => {}
+        }
+        for input in plan.inputs() {
+            Self::extract_time_bounds(input, min_time, max_time);
         }
     }
 
